@@ -166,6 +166,11 @@ impl Assembler {
             bytes.len()
         );
         self.end = self.end.max(offset + bytes.len() as u64);
+        if bytes.is_empty() {
+            // Nothing to buffer. In particular, do not record an empty range in `recvd`: it would
+            // stop the duplicate scan of a later overlapping frame early.
+            return Ok(());
+        }
         if let State::Unordered { ref mut recvd } = self.state {
             // Discard duplicate data
             for duplicate in recvd.replace(offset..offset + bytes.len() as u64) {
